@@ -93,6 +93,9 @@ pub struct Program {
     /// added to the size of the padding file (residue sweeps)
     #[serde(default)]
     pub pad_extra: u16,
+    /// cap on the total content size in bytes (0 = flavour default)
+    #[serde(default)]
+    pub cap: u32,
     pub key_seed: u16,
 }
 
@@ -289,6 +292,9 @@ pub fn resolve(p: &Program) -> Resolved {
     let mut pos = 0usize;
     // high brotli qualities are slow: keep production programs at those levels small
     let mut budget = if !SCALED && p.level >= 9 && p.layers & 2 != 0 { 1 << 20 } else { max_total() };
+    if p.cap != 0 {
+        budget = budget.min(p.cap as usize);
+    }
     // current_id as the writer tracks it: set by start_file, and by append/end on id change
     let mut current: usize = 0;
     let mut fi = 0; // index into flush_after
@@ -682,7 +688,10 @@ pub fn diff_model(got: &BTreeMap<String, FileOut>, model: &BTreeMap<String, Vec<
 pub struct RepairOut {
     /// Debug rendering of the FailSafeReadError returned
     pub status: String,
+    /// top-level status is EndOfOriginalArchiveData
     pub end_reached: bool,
+    /// the end marker was reached (possibly wrapped in UnfinishedFiles)
+    pub marker_seen: bool,
     pub unfinished: Option<Vec<String>>,
     pub files: BTreeMap<String, FileOut>,
 }
@@ -721,16 +730,16 @@ pub fn repair_from<R: Read>(src: R, keys: &[StaticSecret], authenticated: bool) 
         let mut out = ArchiveWriter::from_config(Vec::new(), wcfg).map_err(|e| RepairErr::Convert(format!("{e:?}")))?;
         let status = fs.convert_to_archive(&mut out).map_err(|e| RepairErr::Convert(format!("{e:?}")))?;
         let bytes = out.into_raw();
-        let (end_reached, unfinished) = match &status {
-            FailSafeReadError::EndOfOriginalArchiveData => (true, None),
+        let (end_reached, marker_seen, unfinished) = match &status {
+            FailSafeReadError::EndOfOriginalArchiveData => (true, true, None),
             FailSafeReadError::UnfinishedFiles { filenames, stopping_error } => {
-                (matches!(**stopping_error, FailSafeReadError::EndOfOriginalArchiveData), Some(filenames.clone()))
+                (false, matches!(**stopping_error, FailSafeReadError::EndOfOriginalArchiveData), Some(filenames.clone()))
             }
-            _ => (false, None),
+            _ => (false, false, None),
         };
         let status_s = format!("{status:?}");
         let files = read_all(&bytes, &[]).map_err(RepairErr::ReadBack)?;
-        Ok(RepairOut { status: status_s, end_reached, unfinished, files })
+        Ok(RepairOut { status: status_s, end_reached, marker_seen, unfinished, files })
     });
     match r {
         Ok(x) => x,
@@ -884,7 +893,86 @@ pub fn program(pp: ProgParams) -> impl Strategy<Value = Program> {
                 flushes,
                 end_align,
                 pad_extra: 0,
+                cap: 0,
                 key_seed,
             }
         })
+}
+
+// ---------------------------------------------------------------- a built archive with its structure
+
+pub struct Arch {
+    pub res: Resolved,
+    pub bytes: Vec<u8>,
+    pub reader_keys: Vec<StaticSecret>,
+    pub header_len: usize,
+    pub info: BuildInfo,
+    pub flush_lens: Vec<usize>,
+    /// structural boundaries in archive-byte space (header end, chunk edges, tag starts, compressed block
+    /// edges, record starts, end marker, footers), sorted
+    pub boundaries: Vec<usize>,
+}
+
+impl Arch {
+    pub fn nchunks(&self) -> usize {
+        if self.res.layers & 1 != 0 {
+            (self.bytes.len() - self.header_len).div_ceil(CHUNK_TAG)
+        } else {
+            0
+        }
+    }
+}
+
+/// map an offset of the encryption-layer plaintext to the archive byte offset
+pub fn enc_to_archive(header_len: usize, off: usize) -> usize {
+    header_len + off + TAG * (off / CHUNK)
+}
+
+pub fn make_arch(p: &Program) -> Result<Arch, String> {
+    let res = resolve(p);
+    let keys = p.keys();
+    let built = build(&res, &keys.publics)?;
+    let header = crate::refimpl::parse_header(&built.bytes).map_err(|e| format!("HARNESS: refimpl cannot parse the header: {e}"))?;
+    let hl = header.len;
+    let mut b: Vec<usize> = vec![0, 3, 7, hl, built.bytes.len()];
+    let enc = res.layers & 1 != 0;
+    let comp = res.layers & 2 != 0;
+    if enc {
+        let mut p = hl;
+        while p < built.bytes.len() {
+            let e = (p + CHUNK_TAG).min(built.bytes.len());
+            b.push(e.saturating_sub(TAG));
+            b.push(e);
+            p = e;
+        }
+    }
+    // offsets in the layer just above the raw/encryption layer
+    let mut inner_offs: Vec<usize> = Vec::new();
+    if comp {
+        // compressed block edges from the sizes footer (independent decoder)
+        let secrets: Vec<[u8; 32]> = keys.recipients.iter().map(|s| s.to_bytes()).collect();
+        if let Ok((_, _, after_enc, Some(si), _)) = crate::refimpl::decode_layers(&built.bytes, &secrets, crate::refimpl::Params::current()) {
+            let mut acc = 0usize;
+            for s in &si.compressed_sizes {
+                acc += *s as usize;
+                inner_offs.push(acc);
+            }
+            inner_offs.push(after_enc.len().saturating_sub(4));
+        }
+    } else {
+        for r in &res.blocks {
+            inner_offs.push(r.off);
+            inner_offs.push(r.off + r.header_len());
+        }
+        inner_offs.push(res.marker_off);
+        inner_offs.push(res.marker_off + 1);
+        inner_offs.push(res.total_len.saturating_sub(4));
+    }
+    for o in inner_offs {
+        b.push(if enc { enc_to_archive(hl, o) } else { hl + o });
+    }
+    b.retain(|x| *x <= built.bytes.len());
+    b.sort_unstable();
+    b.dedup();
+    Ok(Arch { res, bytes: built.bytes, reader_keys: p.reader_keys(), header_len: hl, info: built.info, flush_lens: built.flush_lens, boundaries: b })
 }
